@@ -222,7 +222,7 @@ func init() {
 	})
 	nd("MapOrder", func(fr *frame, args []value) value {
 		if args[0].(bool) {
-			mapOrderMode = 1
+			mapOrderMode = 1 + X.Choose(3)
 		} else {
 			mapOrderMode = 0
 		}
